@@ -13,6 +13,8 @@
 (*  sevmeta  : ovmf.extractSevOvmfMetadata                                 *)
 (*  tdxmeta  : ovmf.extractTDXMetadata + abi.TDXMetadataFromBytes          *)
 (*  tdxregion: a TD_HOB / TempMem section's memory size (allocation, loop) *)
+(*  guidtable: ovmf.GetFwGUIDTable / GetFwGUIDToBlockMap                   *)
+(*  certtable: SEV-SNP certificate table entry ranges (extractsev)         *)
 (*  sized    : eventlog size-prefixed readers                              *)
 (*  counted  : eventlog digest list (count-prefixed)                       *)
 (*  locator  : UEFI-variable locator decoding                              *)
@@ -95,10 +97,43 @@ EndoFields(r) ==
       worst == IF "panic" \in {v, s, t} THEN "panic" ELSE v
   IN [res |-> worst, accs |-> {}, alloc |-> 0, iters |-> 0, verify |-> v, sev |-> s, tdx |-> t]
 
+\* ---- certtable: one SEV-SNP certificate-table entry (offset O, length Ln) in a table of L units;
+\*      the dependency checks O + Ln in 32 bits (legacy = call sites without the 64-bit pre-check) ----
+M2 == 32
+CtHdr == 12      \* two 24-byte header entries (one entry + terminator) in units of 4 bytes
+CertTable(r) ==
+  LET L == r.L  O == r.O  Ln == r.Ln
+      end == IF Design = "legacy" THEN (O + Ln) % M2 ELSE O + Ln
+  IN IF O < CtHdr THEN Out("err", {}, 0, 0)
+     ELSE IF end > L THEN Out("err", {}, 0, 0)
+     ELSE LET a == Acc(O, O + Ln) IN IF a.hi > L THEN Out("panic", {a}, Ln, 1) ELSE Out("ok", {a}, Ln, 1)
+
+\* ---- guidtable: image of L units (2 bytes), footer-declared table size T, first entry size E;
+\*      the pinned code is the guarded design, "legacy" is the weakening without the end offset
+\*      (negative control only) ----
+EndOff == 16     \* 0x20 bytes
+GEnt == 9        \* 18-byte entry
+GuidTable(r) ==
+  LET L == r.L  T == r.T  E == r.E
+      fits == IF Design = "legacy" THEN L >= T ELSE L >= T + EndOff
+  IN IF L < EndOff + GEnt THEN Out("err", {}, 0, 0)
+     ELSE IF T < GEnt \/ ~fits THEN Out("err", {Acc(L - EndOff - GEnt, L - EndOff)}, 0, 0)
+     ELSE LET start == L - EndOff - T
+              C == T - GEnt
+              a0 == Acc(start, start + C)
+          IN IF start < 0 THEN Out("panic", {a0}, 0, 0)
+             ELSE IF C = 0 THEN Out("ok", {a0}, 0, 0)
+             ELSE IF C < GEnt THEN Out("err", {a0}, 0, 1)
+             ELSE IF C < E \/ E < GEnt THEN Out("err", {a0}, 0, 1)
+             ELSE IF C = E THEN Out("ok", {a0, Acc(start + C - E, start + C)}, 1, 1)
+             ELSE Out("err", {a0, Acc(start + C - E, start + C)}, 1, 2)          \* the next entry is all zeros
+
 Rows ==
   CASE Which = "sevmeta" -> [p : {"sevmeta"}, L : 0 .. M - 1, O : 0 .. M - 1, S : 0 .. M - 1, Ln : 0 .. M - 1]
     [] Which = "tdxmeta" -> [p : {"tdxmeta"}, L : 0 .. M - 1, O : 0 .. M - 1, S : 0 .. M - 1]
     [] Which = "tdxregion" -> [p : {"tdxregion"}, L : 1 .. M - 1, Z : 0 .. 4 * M, measureAll : BOOLEAN]
+    [] Which = "certtable" -> [p : {"certtable"}, L : CtHdr .. M2 - 1, O : 0 .. M2 - 1, Ln : 0 .. M2 - 1]
+    [] Which = "guidtable" -> [p : {"guidtable"}, L : 0 .. 39, T : 0 .. 39, E : 0 .. 39]
     [] Which = "sized" -> [p : {"sized"}, D : 0 .. M - 1, R : 0 .. M - 1]
     [] Which = "counted" -> [p : {"counted"}, D : 0 .. M - 1, R : 0 .. M - 1]
     [] Which = "locator" -> [p : {"locator"}, L : 0 .. M - 1, term : BOOLEAN]
@@ -109,13 +144,14 @@ Rows ==
 
 Parse(r) ==
   CASE r.p = "sevmeta" -> SevMeta(r) [] r.p = "tdxmeta" -> TdxMeta(r) [] r.p = "tdxregion" -> TdxRegion(r)
+    [] r.p = "certtable" -> CertTable(r) [] r.p = "guidtable" -> GuidTable(r)
     [] r.p = "sized" -> Sized(r) [] r.p = "counted" -> Counted(r) [] r.p = "locator" -> Locator(r) [] r.p = "endofields" -> EndoFields(r)
 
 Init == row \in Rows /\ out = [res |-> "pending"]
 Decide == out.res = "pending" /\ out' = Parse(row) /\ UNCHANGED row
 Spec == Init /\ [][Decide]_vars
 
-Size(r) == IF r.p \in {"sevmeta", "tdxmeta", "tdxregion", "locator"} THEN r.L ELSE IF r.p \in {"sized", "counted"} THEN r.R ELSE 1
+Size(r) == IF r.p \in {"sevmeta", "tdxmeta", "tdxregion", "locator", "certtable", "guidtable"} THEN r.L ELSE IF r.p \in {"sized", "counted"} THEN r.R ELSE 1
 Total == out.res \in {"pending", "ok", "err"}                                 \* never a panic
 MemSafe == out.res = "pending" \/ \A a \in out.accs : 0 <= a.lo /\ a.lo <= a.hi /\ a.hi <= Size(row)
 AllocBounded == out.res = "pending" \/ out.alloc <= Size(row) + 1
